@@ -227,6 +227,81 @@ func (c *FnCtx) evIdent(x *eIdent, env *evalEnv) *Val {
 	if v, ok := c.ghosts[x.name]; ok {
 		return v
 	}
+	// inside a loop clause: the loop's own phi of that name, or the loop-invariant value the name has in the loop
+	if c.fn != nil && env.vars != nil && c.curLoop != nil {
+		for _, ins := range c.curLoop.header.Instrs {
+			if phi, ok := ins.(*ssa.Phi); ok && phi.Comment == x.name {
+				if r, ok := c.regs[phi]; ok {
+					return r
+				}
+			}
+		}
+		var outside []ssa.Value
+		for b := range c.curLoop.blocks {
+			for _, ins := range b.Instrs {
+				d, ok := ins.(*ssa.DebugRef)
+				if !ok || d.IsAddr || d.Object() == nil || d.Object().Name() != x.name {
+					continue
+				}
+				if di, isI := d.X.(ssa.Instruction); isI && c.curLoop.blocks[di.Block()] {
+					continue
+				}
+				dup := false
+				for _, o := range outside {
+					if o == d.X {
+						dup = true
+					}
+				}
+				if !dup {
+					outside = append(outside, d.X)
+				}
+			}
+		}
+		if len(outside) == 1 {
+			if r, ok := c.regs[outside[0]]; ok {
+				return r
+			}
+			if _, isC := outside[0].(*ssa.Const); isC {
+				return c.val(env.st, outside[0])
+			}
+		}
+		// otherwise: the definition of the variable that reaches the loop head, i.e. the
+		// value named x whose defining block is the closest dominator of the header
+		var best ssa.Value
+		bestDepth := -2
+		consider := func(v ssa.Value) {
+			ins, ok := v.(ssa.Instruction)
+			if !ok {
+				return
+			}
+			b := ins.Block()
+			if b == nil || b == c.curLoop.header || !b.Dominates(c.curLoop.header) {
+				return
+			}
+			d := 0
+			for x := b; x != nil; x = x.Idom() {
+				d++
+			}
+			if d > bestDepth {
+				bestDepth, best = d, v
+			}
+		}
+		for _, b := range c.fn.Blocks {
+			for _, ins := range b.Instrs {
+				if phi, ok := ins.(*ssa.Phi); ok && phi.Comment == x.name {
+					consider(phi)
+				}
+				if d, ok := ins.(*ssa.DebugRef); ok && !d.IsAddr && d.Object() != nil && d.Object().Name() == x.name {
+					consider(d.X)
+				}
+			}
+		}
+		if best != nil {
+			if r, ok := c.regs[best]; ok {
+				return r
+			}
+		}
+	}
 	// source-level local variable names (DebugRef): only unambiguous ones
 	if c.fn != nil && env.vars != nil {
 		if vs := c.names[x.name]; len(vs) == 1 {
@@ -529,15 +604,28 @@ func (c *FnCtx) evQuant(x *eQuant, env *evalEnv) *Val {
 			c.qDepth--
 			facts := c.qFacts[len(c.qFacts)-1]
 			c.qFacts = c.qFacts[:len(c.qFacts)-1]
-			guards = append(guards, facts...)
+			// side facts (type ranges of loaded values and call results, instantiated
+			// callee postconditions, ...) hold for EVERY value of the bound variables:
+			// they are hoisted as separate universally quantified assumptions instead of
+			// weakening the formula with guards it could never discharge.
+			if len(facts) > 0 {
+				c.assume(fmt.Sprintf("(forall (%s) %s)", strings.Join(binders, " "), and(facts...)))
+			}
 		}()
 		body = c.ev(x.body, &n)
 	}()
 	g := and(guards...)
-	if x.forall {
-		return c.mk(boolT, fmt.Sprintf("(forall (%s) %s)", strings.Join(binders, " "), implies(g, body.S)))
+	inner := implies(g, body.S)
+	if !x.forall {
+		inner = and(g, body.S)
 	}
-	return c.mk(boolT, fmt.Sprintf("(exists (%s) %s)", strings.Join(binders, " "), and(g, body.S)))
+	if pat := inferPatterns(body.S, binders); pat != "" {
+		inner = "(! " + inner + " " + pat + ")"
+	}
+	if x.forall {
+		return c.mk(boolT, fmt.Sprintf("(forall (%s) %s)", strings.Join(binders, " "), inner))
+	}
+	return c.mk(boolT, fmt.Sprintf("(exists (%s) %s)", strings.Join(binders, " "), inner))
 }
 
 // funcSym declares the uninterpreted symbol of a pure function / observer.
@@ -601,17 +689,51 @@ func (c *FnCtx) applyPure(st *State, full string, sig *types.Signature, recvT ty
 			t = app(f, ts...)
 		}
 		v := c.mk(res.At(0).Type(), t)
-		c.typeAssume(st, v)
+		c.pureResultFacts(f, sorts, res.At(0).Type())
 		return v
 	}
 	out := &Val{T: res}
 	for i := 0; i < res.Len(); i++ {
 		f := c.funcSym(full, sorts, c.sortOf(res.At(i).Type()), i)
 		v := c.mk(res.At(i).Type(), app(f, ts...))
-		c.typeAssume(st, v)
+		c.pureResultFacts(f, sorts, res.At(i).Type())
 		out.Tup = append(out.Tup, v)
 	}
 	return out
+}
+
+// pureResultFacts states once per function symbol that its result is a value of
+// its Go type (range of integers, well-formed slice header, ...), for all arguments.
+func (c *FnCtx) pureResultFacts(f string, sorts []string, T types.Type) {
+	key := "purefacts:" + f
+	if c.assumed[key] {
+		return
+	}
+	c.assumed[key] = true
+	var bs, xs []string
+	for i, s := range sorts {
+		bs = append(bs, fmt.Sprintf("(px%d %s)", i, s))
+		xs = append(xs, fmt.Sprintf("px%d", i))
+	}
+	t := f
+	if len(xs) > 0 {
+		t = app(f, xs...)
+	}
+	// collect the type facts of a term of type T
+	saveA, saveQ, saveF := c.asserts, c.qDepth, c.qFacts
+	c.asserts = nil
+	c.qDepth = 0
+	c.typeAssume(nil, c.mk(T, t))
+	facts := c.asserts
+	c.asserts, c.qDepth, c.qFacts = saveA, saveQ, saveF
+	if len(facts) == 0 {
+		return
+	}
+	if len(xs) == 0 {
+		c.asserts = append(c.asserts, and(facts...))
+		return
+	}
+	c.asserts = append(c.asserts, fmt.Sprintf("(forall (%s) (! %s :pattern (%s)))", strings.Join(bs, " "), and(facts...), t))
 }
 
 func (c *FnCtx) evCall(x *eCall, env *evalEnv) *Val {
@@ -729,6 +851,10 @@ func (c *FnCtx) evCall(x *eCall, env *evalEnv) *Val {
 		case "tag":
 			v := c.ev(x.args[0], env)
 			return c.mk(intT, app("itag", v.S))
+		case "isfresh":
+			// isfresh(s): the backing array of slice s was allocated during this call (or s is nil)
+			v := c.ev(x.args[0], env)
+			return c.mk(boolT, or(eq(app("s_arr", v.S), "0"), app(">=", app("s_arr", v.S), c.entry.nextRef)))
 		case "fresh":
 			// fresh(p): p was allocated during this call
 			v := c.ev(x.args[0], env)
@@ -857,7 +983,70 @@ func (c *FnCtx) evPureCall(f *types.Func, recv *Val, args []specExpr, env *evalE
 	full := pureName(f, recvT)
 	// heap-reading pure functions of /repo take their `reads` heaps as extra arguments
 	v := c.applyPureReads(c.state(env), full, f, sig, recvT, vals)
+	c.instantiatePure(f, vals, v, env)
 	return v
+}
+
+// instantiatePure adds, for one application of a pure /repo function inside a
+// contract expression, the callee's postconditions instantiated at these
+// arguments (requires ==> ensures). The callee's contract is verified on its own.
+func (c *FnCtx) instantiatePure(f *types.Func, vals []*Val, res *Val, env *evalEnv) {
+	if f.Pkg() == nil || !strings.HasPrefix(f.Pkg().Path(), repoMod) || env.depth > 1 {
+		return
+	}
+	sf := c.L.prog.FuncValue(f)
+	if sf == nil {
+		return
+	}
+	sp := c.specOf(sf)
+	if sp == nil || !sp.pure || len(sp.ensures) == 0 || len(sf.Params) != len(vals) {
+		return
+	}
+	if c.spec != nil && c.spec.opaque[sf.Name()] {
+		return
+	}
+	key := "purei:" + res.S
+	if c.assumed[key] {
+		return
+	}
+	c.assumed[key] = true
+	n := &evalEnv{vars: map[string]*Val{}, st: c.state(env), old: c.state(env), pkg: f.Pkg(), depth: env.depth + 1, result: []*Val{res}}
+	for i, p := range sf.Params {
+		a := vals[i]
+		if a.T == nil {
+			if a.S == "nil" {
+				a = c.mk(p.Type(), c.zero(p.Type()))
+			} else {
+				a = c.mk(p.Type(), a.S)
+			}
+		}
+		n.vars[p.Name()] = &Val{T: p.Type(), S: c.coerce(a, p.Type())}
+	}
+	rs := sf.Signature.Results()
+	for i := 0; i < rs.Len(); i++ {
+		n.resNm = append(n.resNm, rs.At(i).Name())
+	}
+	saveNames := c.names
+	c.names = map[string][]ssa.Value{}
+	defer func() { c.names = saveNames }()
+	var reqs []Term
+	for _, r := range sp.requires {
+		t, err := c.evalBool(r.expr, n)
+		if err != nil {
+			return
+		}
+		reqs = append(reqs, t)
+	}
+	for _, e := range sp.ensures {
+		if e.cover || hasCalled(e.expr) {
+			continue
+		}
+		t, err := c.evalBool(e.expr, n)
+		if err != nil {
+			continue
+		}
+		c.assume(implies(and(reqs...), t))
+	}
 }
 
 // ifaceDeclaring: canonical interface type for naming an interface method, so
